@@ -30,6 +30,12 @@ def secs(x):
 
 
 class IntegInterp(BufInterp):
+    def decide(self, cond, node):
+        # truthiness of the step position: a float, falsy exactly when it equals 0.0
+        if cond == STEP and "step" in self.order.rank and "zero" in self.order.rank:
+            return self.order.rank["step"] != self.order.rank["zero"]
+        return super().decide(cond, node)
+
     def get_attr(self, obj, attr, node, mod):
         if attr == "total_seconds" and isinstance(obj, Sym):
             return Sym("secs_of", obj)
